@@ -140,7 +140,7 @@ static void c03_gen(Rng &rng, Plan &plan, bool thorough)
 	plan.setp("synth_seed", (int64_t)(rng.next() >> 2));
 	plan.setp("what", (int64_t)rng.below(10));   // 0-6 .xz, 7-9 raw LZMA2
 	// streams that are wrong by construction: a distance that reaches just outside the dictionary
-	if (rng.chance(250)) plan.setp("synth_illegal", rng.chance(500) ? 1000 : 150);
+	if (rng.chance(250)) { plan.setp("synth_illegal", 1 + (int64_t)rng.below(1 << 20)); plan.setp("synth_illegal_kind", rng.chance(450) ? 1 : 0); }   // which site (modulo the number of sites) of which kind
 	else if (rng.chance(450)) gen_storage_faults(rng, plan, 2);
 	plan.setp("decoder", (int64_t)rng.below(10));
 	plan.setp("style", (int64_t)rng.below(4));
@@ -151,7 +151,15 @@ static void c03_gen(Rng &rng, Plan &plan, bool thorough)
 static void c03_exec(const Plan &plan, Verdict &v)
 {
 	ref::SynthRng srng((uint64_t)plan.p("synth_seed", 1));
-	srng.illegal_permille = (unsigned)plan.p("synth_illegal", 0);
+	if (plan.p("synth_illegal", 0)) {
+		// fault-free probe pass with the same seed: how many sites does this artefact have?
+		ref::SynthRng probe((uint64_t)plan.p("synth_seed", 1));
+		if (plan.p("what") >= 7) { Bytes pl; unsigned ft = 0; uint32_t dict = (uint32_t)(1u << (12 + probe.below(8))); ref::synth_lzma2(probe, dict, 1 + (size_t)probe.below(6), pl, &ft); }
+		else { SynthXz px; synth_xz(probe, px, true); }
+		srng.illegal_kind = plan.p("synth_illegal_kind", 0) && probe.site_counter[1] > 0 ? 1 : 0;
+		long ns = probe.site_counter[srng.illegal_kind];
+		srng.illegal_site_target = (long)(plan.p("synth_illegal") % (ns > 0 ? ns : 1));
+	}
 	bool faulted = false;
 	for (auto &op : plan.ops) if (op.name == "sfault") faulted = true;
 	v.count("runs.total");
@@ -302,7 +310,7 @@ static void c16_gen(Rng &rng, Plan &plan, bool thorough)
 	plan.setp("synth_seed", (int64_t)(rng.next() >> 2));
 	plan.setp("fmt", (int64_t)rng.below(10));   // 0-3 .lzma, 4-6 .lz, 7-9 .xz concatenation/padding
 	plan.setp("variant", (int64_t)rng.below(1 << 20));
-	if (rng.chance(120)) plan.setp("synth_illegal", rng.chance(500) ? 1000 : 200);   // used by the .lzma and .lz forms
+	if (rng.chance(120)) plan.setp("synth_illegal", 1 + (int64_t)rng.below(1 << 20));   // used by the .lzma and .lz forms: which site
 	else if (rng.chance(350)) gen_storage_faults(rng, plan, 2);
 	plan.setp("style", (int64_t)rng.below(4));
 	plan.setp("delivery_seed", (int64_t)(rng.next() >> 2));
@@ -314,8 +322,12 @@ static void c16_gen(Rng &rng, Plan &plan, bool thorough)
 static void c16_exec(const Plan &plan, Verdict &v)
 {
 	ref::SynthRng srng((uint64_t)plan.p("synth_seed", 1));
-	srng.illegal_permille = (unsigned)plan.p("synth_illegal", 0);
 	uint64_t var = (uint64_t)plan.p("variant");
+	if (plan.p("synth_illegal", 0)) {
+		int fk = (int)plan.p("fmt");
+		long sites = fk <= 3 ? 1 : 1 + (long)(var % 3);   // one emit() per .lzma file / per .lz member
+		if (fk <= 6) srng.illegal_site_target = (long)(plan.p("synth_illegal") % sites);
+	}
 	int fmtk = (int)plan.p("fmt");
 	bool faulted = false;
 	for (auto &op : plan.ops) if (op.name == "sfault") faulted = true;
